@@ -216,14 +216,43 @@ def loop_is_iterator_bounded(body, comp):
         self_ty = inst[1:].split(" as std::iter::Iterator>")[0]
         if self_ty.startswith("&mut "):
             self_ty = self_ty[5:]
-        if not self_ty.startswith(STD_ITER_PREFIXES):
-            continue            # a crate-defined iterator: not covered by this rule
         if any(u in self_ty for u in UNBOUNDED_SOURCES):
             continue
+        if self_ty.startswith("<impl ") or self_ty.startswith("impl ") or GENERIC_ITER.match(self_ty):
+            # the iterator is an argument of generic type (`impl IntoIterator`, `I: Iterator`): whether it ends is
+            # decided at the call sites of this function (see generic_iterator_callers_bounded)
+            return "generic:" + inst
+        if not self_ty.startswith(STD_ITER_PREFIXES):
+            continue            # a crate-defined iterator: not covered by this rule
         if "impl " in self_ty or "dyn " in self_ty:
             continue            # opaque: the source is not visible in the type
         return inst
     return None
+
+
+import re as _re
+GENERIC_ITER = _re.compile(r"^(<[A-Z]\w* as std::iter::IntoIterator>::IntoIter|[A-Z]\w{0,3})$")
+
+
+def generic_iterator_callers_bounded(prog, key):
+    """every crate call site of the private generic function `key` instantiates it with std types that name no unbounded
+    source (and no opaque type); a function without call sites is dead"""
+    b = prog.bodies[key]
+    if b.get("vis") == "pub":
+        return False
+    for k2, b2 in prog.bodies.items():
+        for bb in b2["blocks"]:
+            c = callee_of(bb["term"])
+            if c is None or callee_key(c) != key:
+                continue
+            inst = (c.get("resolved") or c).get("def_args") or ""
+            m = _re.search(r"::<(.*)>$", inst)
+            targs = m.group(1) if m else ""
+            if not targs or any(u in targs for u in UNBOUNDED_SOURCES) or "impl " in targs or "dyn " in targs:
+                return False
+            if _re.search(r"(^|[ <,(&])[A-Z]\w{0,3}([>,) ]|$)", targs):
+                return False           # still generic at this call site
+    return True
 
 
 def errmode_incomplete_dead_blocks(prog, body):
@@ -292,7 +321,211 @@ def _sccs_of(nodes, succ):
     return out
 
 
-def unbounded_loops(body):
+GET_LIKE = ("core::slice::<impl [T]>::get", "std::vec::Vec::<T, A>::get", "core::str::<impl str>::get", "core::slice::<impl [T]>::get_mut")
+
+
+def counter_loop_bounded(body, comp):
+    """a loop indexed by a counter: some local c is changed inside the loop only by `c = c + k` (k >= 1 constant), every
+    cycle of the loop passes through that assignment, and the loop is left — before the next increment — whenever
+    `slice.get(c)` answers None or `c < len` fails, for a slice / length that comes from a std collection.
+    Returns the counter local or None."""
+    comp_set = set(comp)
+    blocks = body["blocks"]
+    # candidate counters: c with `t = AddWithOverflow(copy c, const k)` and `c = move t.0` inside the loop
+    sums = {}
+    for b in comp:
+        for st in blocks[b]["stmts"]:
+            if st["k"] == "assign" and not st["place"]["p"] and st["rv"].get("k") == "binop" and st["rv"]["op"] in ("AddWithOverflow", "Add"):
+                a, k = st["rv"]["a"], st["rv"]["b"].get("const")
+                if "copy" in a and not a["copy"]["p"] and k and k.get("kind") == "int" and int(k["v"]) >= 1:
+                    sums[st["place"]["l"]] = (a["copy"]["l"], st["rv"]["op"])
+    for t, (c, op) in sums.items():
+        inc_blocks = set()
+        other_writes = False
+        for b in comp:
+            for st in blocks[b]["stmts"]:
+                if st["k"] == "assign" and st["place"]["l"] == c and not st["place"]["p"]:
+                    rv = st["rv"]
+                    src = rv.get("op", {}) if rv.get("k") == "use" else {}
+                    pl = src.get("move") or src.get("copy")
+                    if pl and pl["l"] == t and (pl["p"] == [] if op == "Add" else (len(pl["p"]) == 1 and pl["p"][0][0] == "field" and pl["p"][0][1] == 0)):
+                        inc_blocks.add(b)
+                    else:
+                        other_writes = True
+            tm = blocks[b]["term"]
+            if tm["k"] == "call" and tm.get("dest") and tm["dest"]["l"] == c:
+                other_writes = True
+        if other_writes or not inc_blocks:
+            continue
+        rest = comp_set - inc_blocks
+
+        def succ(v):
+            return [w for w in successors(body, v) if w in rest]
+        if _sccs_of(rest, succ):
+            continue                     # some cycle avoids the increment
+
+        def reaches_increment(start):
+            seen, stack = set(), [start]
+            while stack:
+                v = stack.pop()
+                if v in seen or v not in comp_set:
+                    continue
+                if v in inc_blocks:
+                    return True
+                seen.add(v)
+                stack.extend(successors(body, v))
+            return False
+        # exits tied to the counter
+        holders = {}          # local -> True (holds the Option answered by get(c)); tuple local -> {field: True}
+        for b in comp:
+            tm = blocks[b]["term"]
+            cal = callee_of(tm)
+            if cal is not None and callee_key(cal) in GET_LIKE and len(tm["args"]) == 2:
+                idx = tm["args"][1]
+                il = (idx.get("move") or idx.get("copy") or {}).get("l")
+                is_c = il == c or any(st["k"] == "assign" and st["place"]["l"] == il and not st["place"]["p"] and st["rv"].get("k") == "use"
+                                      and (st["rv"]["op"].get("copy") or st["rv"]["op"].get("move") or {}).get("l") == c
+                                      for st in blocks[b]["stmts"])
+                if is_c and tm.get("dest") and not tm["dest"]["p"]:
+                    holders[tm["dest"]["l"]] = True
+        tuples = {}
+        for b in comp:
+            for st in blocks[b]["stmts"]:
+                if st["k"] == "assign" and not st["place"]["p"] and st["rv"].get("k") == "aggr" and st["rv"].get("ak") == "tuple":
+                    for i, o in enumerate(st["rv"]["ops"]):
+                        l = (o.get("move") or o.get("copy") or {}).get("l")
+                        if l in holders:
+                            tuples.setdefault(st["place"]["l"], set()).add(i)
+        exit_ok = False
+        for b in comp:
+            tm = blocks[b]["term"]
+            if tm["k"] != "switch":
+                continue
+            for st in blocks[b]["stmts"]:
+                if st["k"] == "assign" and st["rv"].get("k") == "discr":
+                    pl = st["rv"]["place"]
+                    is_holder = (pl["l"] in holders and not pl["p"]) or \
+                        (pl["l"] in tuples and len(pl["p"]) == 1 and pl["p"][0][0] == "field" and pl["p"][0][1] in tuples[pl["l"]])
+                    if is_holder:
+                        none_t = [t2 for v, t2 in tm["targets"] if int(v) == 0]
+                        if none_t and all(not reaches_increment(x) for x in none_t):
+                            exit_ok = True
+                if st["k"] == "assign" and st["rv"].get("k") == "binop" and st["rv"]["op"] in ("Lt", "Le", "Gt", "Ge", "Ne"):
+                    a, bb_ = st["rv"]["a"], st["rv"]["b"]
+                    la = (a.get("copy") or a.get("move") or {}).get("l")
+                    lb = (bb_.get("copy") or bb_.get("move") or {}).get("l")
+                    if c in (la, lb):
+                        other = lb if la == c else la
+                        if other is not None and _is_len_local(body, other):
+                            # one of the two branches must leave the loop without another increment
+                            tg = [t2 for _, t2 in tm["targets"]] + [tm["otherwise"]]
+                            if any(not reaches_increment(x) for x in tg):
+                                exit_ok = True
+        if exit_ok:
+            return c
+    return None
+
+
+SHRINK = ("std::vec::Vec::<T, A>::remove", "std::vec::Vec::<T, A>::swap_remove", "std::vec::Vec::<T, A>::pop",
+          "std::collections::VecDeque::<T, A>::pop_front", "std::collections::VecDeque::<T, A>::pop_back")
+GROW = ("::push", "::insert", "::extend", "::append", "::extend_from_slice", "::push_back", "::push_front", "::resize")
+
+
+def shrinking_loop_bounded(body, comp):
+    """a loop that takes an element out of a local collection on every turn (`remove`, `swap_remove`, or `pop` whose
+    `None` leaves the loop) and never adds to that collection inside the loop: the length is a ranking function"""
+    comp_set = set(comp)
+    blocks = body["blocks"]
+
+    def ref_target(b, arg):
+        """the local a `&mut V` argument refers to (defined in block b by `_t = &mut _V`)"""
+        l = (arg.get("move") or arg.get("copy") or {}).get("l")
+        for st in blocks[b]["stmts"]:
+            if st["k"] == "assign" and st["place"]["l"] == l and not st["place"]["p"] and st["rv"].get("k") == "ref":
+                pl = st["rv"]["place"]
+                if not pl["p"]:
+                    return pl["l"]
+        return None
+    shrink_blocks = {}
+    for b in comp:
+        tm = blocks[b]["term"]
+        c = callee_of(tm)
+        if c is not None and callee_key(c) in SHRINK and tm.get("args"):
+            v = ref_target(b, tm["args"][0])
+            if v is not None:
+                shrink_blocks.setdefault(v, []).append((b, callee_key(c), tm))
+    for v, lst in shrink_blocks.items():
+        grows = False
+        for b in comp:
+            tm = blocks[b]["term"]
+            c = callee_of(tm)
+            if c is not None and callee_key(c).endswith(GROW) and tm.get("args") and ref_target(b, tm["args"][0]) == v:
+                grows = True
+        if grows:
+            continue
+        sb = set(b for b, _, _ in lst)
+        rest = comp_set - sb
+
+        def succ(x):
+            return [w for w in successors(body, x) if w in rest]
+        if _sccs_of(rest, succ):
+            continue
+        ok = True
+        for b, k, tm in lst:
+            if k.endswith("::pop") or "pop_" in k:
+                # the None answer must leave the loop before the next pop
+                d = tm.get("dest", {}).get("l")
+                left = False
+                for b2 in comp:
+                    t2 = blocks[b2]["term"]
+                    if t2["k"] != "switch":
+                        continue
+                    for st in blocks[b2]["stmts"]:
+                        if st["k"] == "assign" and st["rv"].get("k") == "discr" and st["rv"]["place"]["l"] == d and not st["rv"]["place"]["p"]:
+                            none_t = [t3 for val, t3 in t2["targets"] if int(val) == 0]
+                            seen, stack, back = set(), list(none_t), False
+                            while stack:
+                                x = stack.pop()
+                                if x in seen or x not in comp_set:
+                                    continue
+                                if x in sb:
+                                    back = True
+                                    break
+                                seen.add(x)
+                                stack.extend(successors(body, x))
+                            if none_t and not back:
+                                left = True
+                if not left:
+                    ok = False
+        if ok:
+            return v
+    return None
+
+
+def _is_len_local(body, l):
+    """the local is only ever assigned the result of a std `len()`-like call (or a copy of such a local)"""
+    ok_any = False
+    for bb in body["blocks"]:
+        for st in bb["stmts"]:
+            if st["k"] == "assign" and st["place"]["l"] == l and not st["place"]["p"]:
+                rv = st["rv"]
+                src = (rv.get("op", {}).get("copy") or rv.get("op", {}).get("move")) if rv.get("k") == "use" else None
+                if src and not src["p"] and src["l"] != l and _is_len_local(body, src["l"]):
+                    ok_any = True
+                else:
+                    return False
+        tm = bb["term"]
+        if tm["k"] == "call" and tm.get("dest") and tm["dest"]["l"] == l and not tm["dest"]["p"]:
+            c = callee_of(tm)
+            k = callee_key(c) if c else ""
+            if k.endswith("::len") and k.startswith(("std::", "core::", "alloc::", "<std::", "<core::")):
+                ok_any = True
+            else:
+                return False
+    return ok_any
+
+
+def unbounded_loops(body, prog=None, key=None):
     """loop nests of a body that are not driven by a std collection iterator: list of block sets.
     A loop is accepted when it contains an `Iterator::next` call on a collection iterator; the nest inside it
     (the loop with that block removed) is examined recursively."""
@@ -306,11 +539,16 @@ def unbounded_loops(body):
         hdr = None
         for b in comp:
             c = callee_of(body["blocks"][b]["term"])
-            if c is not None and loop_is_iterator_bounded(body, [b]):
-                hdr = b
-                break
+            if c is not None:
+                r = loop_is_iterator_bounded(body, [b])
+                if r and r.startswith("generic:") and not (prog is not None and key is not None and generic_iterator_callers_bounded(prog, key)):
+                    r = None
+                if r:
+                    hdr = b
+                    break
         if hdr is None:
-            bad.append(comp)
+            if counter_loop_bounded(body, comp) is None and shrinking_loop_bounded(body, comp) is None:
+                bad.append(comp)
             return
         rest = set(comp) - {hdr}
         for inner in _sccs_of(rest, succ):
@@ -343,9 +581,19 @@ def delegates_to_parse(prog, start, from_str, parse):
     callees, bodies = reach_callees(prog, start)
     if parse in callees:
         return True
-    fs_ok = from_str in prog.bodies and parse in reach_callees(prog, from_str)[0]
+    # `parse` and `from_str` are the same entry point when either delegates to the other
+    fs_ok = from_str in prog.bodies and (parse in reach_callees(prog, from_str)[0] or
+                                         (parse in prog.bodies and (from_str in reach_callees(prog, parse)[0] or
+                                                                    any("core::str::<impl str>::parse" in c for c in reach_callees(prog, parse)[0]))))
     if from_str in callees or from_str in bodies:
         return fs_ok
     if any("core::str::<impl str>::parse" in c for c in callees):
         return fs_ok
     return False
+
+
+def deserializes_borrowed_str(prog, start):
+    """the text is obtained with `<&str as Deserialize>::deserialize`, which only accepts strings borrowed from the
+    deserializer's input (fails for readers, `serde_json::Value`, escaped JSON text)"""
+    callees, _ = reach_callees(prog, start)
+    return any("serde::Deserialize<'de> for &'a str>::deserialize" in c or "Deserialize<'de> for &" in c and " str>" in c for c in callees)
